@@ -33,3 +33,29 @@ package sm2
 //@ mode int
 //@ ensures val: result == (len(x) == 32 && len(y) == 32 && be(x) < P && be(y) < P && oncurve(be(x), be(y)))
 //@ assigns nothing
+
+//@ axiom order: forallInt(k, isinf(gmul(k)) == (k % N == 0))
+
+//@ func sm2.GenerateKey
+//@ mode int
+//@ use_axiom order
+//@ ensures nilrand: rand == nil ==> nonnil(err) && x == nil && y == nil && rdidx == old(rdidx)
+//@ ensures ok: !nonnil(err) ==> len(priv) == 32 && 1 <= be(priv) && be(priv) <= N - 2 && be(priv) == draw(rdidx - 1) && old(rdidx) < rdidx
+//@ ensures first: !nonnil(err) ==> forall(j, old(rdidx), rdidx - 1, !(1 <= draw(j) && draw(j) <= N - 2))
+//@ ensures pub: !nonnil(err) ==> len(x) == 32 && len(y) == 32 && be(x) == affx(gmul(be(priv))) && be(y) == affy(gmul(be(priv)))
+//@ ensures fail: nonnil(err) ==> x == nil && y == nil
+//@ loop 1
+//@ modifies rdidx
+//@ invariant idx: old(rdidx) <= rdidx
+//@ invariant rej: forall(j, old(rdidx), rdidx, !(1 <= draw(j) && draw(j) <= N - 2))
+//@ invariant len: len(priv) == 32
+
+// GM/T 0003.2 verification: t = (r+s) mod n, (x1,y1) = [s]G + [t]P, accept iff (e + x1) mod n = r
+//@ define vsum(px, py, r, s) = padd(gmul(s), pmul((r + s) % N, decode(px, py)))
+//@ define std_verify(px, py, e, r, s) = 1 <= r && r <= N - 1 && 1 <= s && s <= N - 1 && (r + s) % N != 0 && px < P && py < P && oncurve(px, py) && !isinf(vsum(px, py, r, s)) && (e + affx(vsum(px, py, r, s))) % N == r
+
+//@ func sm2.VerifyHashed
+//@ mode int
+//@ ensures iff: result0 == (len(pubx) == 32 && len(puby) == 32 && len(e) == 32 && len(r) == 32 && len(s) == 32 && std_verify(be(pubx), be(puby), be(e), be(r), be(s)))
+//@ ensures err: result0 ==> !nonnil(result1)
+//@ assigns nothing
